@@ -48,6 +48,13 @@ TABLE = [
     ("InfoAction", G % "info_action", GS % "info_action", 1, 6, []),
     ("Constitution", G % "constitution", GS % "constitution", 2, None, [("req", "anchor"), ("null", "script_hash")]),
     ("UnitInterval", "lib.rs", "serialization/general.rs", 2, None, [("req", "numerator"), ("req", "denominator")], "seq![Tok::Tag(30)]"),
+    # native scripts (native_script = [ script_pubkey // script_all // script_any // script_n_of_k // invalid_before // invalid_hereafter ])
+    ("ScriptPubkey", "protocol_types/native_script.rs", "serialization/native_script.rs", 2, 0, [("req", "addr_keyhash")]),
+    ("ScriptAll", "protocol_types/native_script.rs", "serialization/native_script.rs", 2, 1, [("req", "native_scripts")]),
+    ("ScriptAny", "protocol_types/native_script.rs", "serialization/native_script.rs", 2, 2, [("req", "native_scripts")]),
+    ("ScriptNOfK", "protocol_types/native_script.rs", "serialization/native_script.rs", 3, 3, [("req", "n"), ("req", "native_scripts")]),
+    ("TimelockStart", "protocol_types/native_script.rs", "serialization/native_script.rs", 2, 4, [("req", "slot")]),
+    ("TimelockExpiry", "protocol_types/native_script.rs", "serialization/native_script.rs", 2, 5, [("req", "slot")]),
     ("ExUnitPrices", "protocol_types/plutus/ex_unit_prices.rs", "serialization/plutus/ex_unit_prices.rs", 2, None, [("req", "mem_price"), ("req", "step_price")]),
     ("BootstrapWitness", "protocol_types/witnesses/bootstrap_witness.rs", "serialization/witnesses/bootstrap_witness.rs", 4, None, [("req", "vkey"), ("req", "signature"), ("bytes", "chain_code"), ("bytes", "attributes")]),
 ]
@@ -243,9 +250,57 @@ impl_pre = \'\'\'
 tail = "if r_tail_ is Ok { assert(serializer.toks() =~= old(serializer).toks() + %s_enc(*self)); assert(self.enc() =~= %s_enc(*self)); }"
 ''' % (sfile, ty, ty, ty, ty, ty, ty))
 
+# ---- dispatchers: an enum whose variants serialize as themselves, and the newtype around it -------------------------------------------
+# (enum type, enum type file, serializer file, enum has its own Serialize impl, wrapper type or None, wrapper type file)
+DISPATCH = [
+    ("RelayEnum", "lib.rs", "serialization/general.rs", True, "Relay", "lib.rs"),
+    ("CertificateEnum", "protocol_types/certificates/certificate.rs", "serialization/certificates/certificate.rs", True, "Certificate", "protocol_types/certificates/certificate.rs"),
+    ("NativeScriptEnum", "protocol_types/native_script.rs", "serialization/native_script.rs", True, "NativeScript", "protocol_types/native_script.rs"),
+    ("GovernanceActionEnum", "protocol_types/governance/proposals/governance_action.rs", "serialization/governance/proposals/governance_action.rs", False, "GovernanceAction", "protocol_types/governance/proposals/governance_action.rs"),
+]
+for (en, etfile, sfile, own_impl, wr, wtfile) in DISPATCH:
+    es = src(etfile)
+    m = re.search(r"enum %s\s*\{(.*?)\n\}" % en, es, re.S)
+    variants = re.findall(r"(\w+)\((\w+)\)", m.group(1))
+    for v, t in variants:
+        opaque.add(t)
+    toml.append('[[type]]\nsource = "rust/src/%s"\nkind = "enum"\nname = "%s"\n' % (etfile, en))
+    spec.append("pub open spec fn %s_enc(x: %s) -> Seq<Tok> { match x { %s } }\n" % (en, en, " ".join("%s::%s(y) => y.enc()," % (en, v) for v, t in variants)))
+    s_ = src(sfile)
+    def hdr(ty):
+        h = "impl cbor_event::se::Serialize for %s" % ty
+        return h if re.search(re.escape(h) + r"\b", s_) else "impl Serialize for %s" % ty
+    if own_impl:
+        toml.append('''[[fn]]
+source = "rust/src/%s"
+impl = "%s"
+emit_impl = "impl Ser for %s"
+name = "serialize"
+id = "%s::serialize"
+rewrites = ["serret"]
+impl_pre = \'\'\'
+    open spec fn enc(&self) -> Seq<Tok> { %s_enc(*self) }
+\'\'\'
+tail = "if r_tail_ is Ok { assert(self.enc() =~= %s_enc(*self)); }"
+''' % (sfile, hdr(en), en, en, en, en))
+    if wr:
+        toml.append('[[type]]\nsource = "rust/src/%s"\nname = "%s"\n' % (wtfile, wr))
+        toml.append('''[[fn]]
+source = "rust/src/%s"
+impl = "%s"
+emit_impl = "impl Ser for %s"
+name = "serialize"
+id = "%s::serialize"
+rewrites = ["serret"]
+impl_pre = \'\'\'
+    open spec fn enc(&self) -> Seq<Tok> { %s_enc(self.0) }
+\'\'\'
+tail = "if r_tail_ is Ok { assert(self.enc() =~= %s_enc(self.0)); }"
+''' % (sfile, hdr(wr), wr, wr, en, en))
+
 toml.append(open(os.path.join(D, "contracts/ser_records/custom.toml")).read())
 spec.append(open(os.path.join(D, "contracts/ser_records/custom_spec.rs")).read())
-own = set(t[0] for t in TABLE) | set(c[0] for c in COLLS) | set(l[0] for l in LEAVES) | set(re.findall(r'(?m)^name = "(\w+)"', open(os.path.join(D, "contracts/ser_records/custom.toml")).read()))
+own = set(t[0] for t in TABLE) | set(c[0] for c in COLLS) | set(l[0] for l in LEAVES) | set(d[0] for d in DISPATCH) | set(d[4] for d in DISPATCH if d[4]) | set(re.findall(r'(?m)^name = "(\w+)"', open(os.path.join(D, "contracts/ser_records/custom.toml")).read()))
 opaque -= own
 opaque -= {"Coin", "Epoch", "Port", "BigNum", "TransactionIndex", "GovernanceActionIndex", "Ed25519KeyHash", "ScriptHash", "SubCoin", "PlutusData"}
 open(os.path.join(D, "contracts/ser_records/unit.toml"), "w").write("\n".join(toml))
